@@ -2,6 +2,7 @@ package rules
 
 import (
 	"fmt"
+	"go/constant"
 	"go/token"
 	"go/types"
 	"sort"
@@ -28,9 +29,18 @@ func methodsOf(p *ana.Prog, rel, typ string) []*ssa.Function {
 	return out
 }
 
-// storedFields: fields of the receiver a function stores to (first-level field names).
-func storedFields(fn *ssa.Function) map[string][]*ssa.Store {
-	out := map[string][]*ssa.Store{}
+// fieldStore is an assignment to one field of the receiver: a store to the field, or the
+// field's part of an assignment of the whole struct (*f = T{...}); At is the instruction.
+type fieldStore struct {
+	Val ssa.Value
+	At  *ssa.Store
+}
+
+// storedFields: fields of the receiver a function assigns (first-level field names). A
+// whole-struct assignment from a composite literal assigns every field: the listed value, or
+// zero. A field given its own current value (log: f.log) is not an assignment.
+func storedFields(fn *ssa.Function) map[string][]fieldStore {
+	out := map[string][]fieldStore{}
 	if len(fn.Params) == 0 {
 		return out
 	}
@@ -40,12 +50,52 @@ func storedFields(fn *ssa.Function) map[string][]*ssa.Store {
 		if !ok {
 			return
 		}
+		if st.Addr == recv {
+			pt, ok := recv.Type().Underlying().(*types.Pointer)
+			if !ok {
+				return
+			}
+			stt, ok := pt.Elem().Underlying().(*types.Struct)
+			if !ok {
+				return
+			}
+			vals := map[string]ssa.Value{}
+			known := false
+			if c, isC := st.Val.(*ssa.Const); isC && c.Value == nil {
+				known = true
+			} else if m := structLit(st.Val); m != nil {
+				vals, known = m, true
+			}
+			for i := 0; i < stt.NumFields(); i++ {
+				f := stt.Field(i)
+				v, has := vals[f.Name()]
+				if !known {
+					out[f.Name()] = append(out[f.Name()], fieldStore{st.Val, st}) // opaque value
+					continue
+				}
+				if !has {
+					v = ssa.NewConst(nil, f.Type()) // zero
+					if b, isB := f.Type().Underlying().(*types.Basic); isB && b.Info()&types.IsNumeric != 0 {
+						v = ssa.NewConst(constant.MakeInt64(0), f.Type())
+						if b.Info()&types.IsFloat != 0 {
+							v = ssa.NewConst(constant.MakeFloat64(0), f.Type())
+						}
+					}
+				} else if ld, isLd := v.(*ssa.UnOp); isLd && ld.Op == token.MUL {
+					if fa, isFA := ld.X.(*ssa.FieldAddr); isFA && fa.X == recv && fa.Field == i {
+						continue // keeps its value
+					}
+				}
+				out[f.Name()] = append(out[f.Name()], fieldStore{v, st})
+			}
+			return
+		}
 		fa, ok := st.Addr.(*ssa.FieldAddr)
 		if !ok || fa.X != recv {
 			return
 		}
 		n := fieldNameOf(fa.X.Type(), fa.Field)
-		out[n] = append(out[n], st)
+		out[n] = append(out[n], fieldStore{st.Val, st})
 	})
 	return out
 }
@@ -102,9 +152,9 @@ func c17Reset(p *ana.Prog, r *ana.Result, typ string, exceptions map[string]stri
 			}
 		}
 		if okVal {
-			r.Ok("C17.reset", rname, "state-field:"+f, posOf(p, sts[0]), "Reset assigns "+f+" a history-independent value")
+			r.Ok("C17.reset", rname, "state-field:"+f, posOf(p, sts[0].At), "Reset assigns "+f+" a history-independent value")
 		} else {
-			r.Violate("C17.reset", rname, "state-field-value:"+f, posOf(p, sts[0]), "Reset assigns "+f+" a value that depends on earlier state")
+			r.Violate("C17.reset", rname, "state-field-value:"+f, posOf(p, sts[0].At), "Reset assigns "+f+" a value that depends on earlier state")
 		}
 	}
 	r.Floor("C17.reset."+typ, n, 1)
@@ -534,13 +584,13 @@ func c17NtimedRaw(p *ana.Prog, r *ana.Result) {
 			for _, st := range sts {
 				if m.Name() == "Reset" {
 					if k, ok := constFloatOf(st.Val); !ok || k != 0 {
-						r.Violate("C17.ntimed", ana.FuncName(m), "counter-reset-to-zero", posOf(p, st), "Reset does not set the sample counter to 0")
+						r.Violate("C17.ntimed", ana.FuncName(m), "counter-reset-to-zero", posOf(p, st.At), "Reset does not set the sample counter to 0")
 					}
 					continue
 				}
 				nStores++
 				if m == do {
-					incr = st
+					incr = st.At
 				}
 			}
 		}
